@@ -517,3 +517,144 @@ Example C07_example_mixed_new :
   /\ mixed_fft F 3 (mkDomain true 6 1 6 11 4 10 1 1 1) [1;2;3;4;5]
      = Some (naive_fft F (mkDomain true 6 1 6 11 4 10 1 1 1) [1;2;3;4;5]).
 Proof. vm_compute. repeat split; reflexivity. Qed.
+
+(* ====================================================================================== *)
+(* Extension 3: the rest of trait EvaluationDomain (C07/Domain2.v; proofs C07/Reindex.v,    *)
+(* C07/Filter.v): reindex_by_subdomain, filter_polynomial / evaluate_filter_polynomial (and  *)
+(* the polynomial long division underneath), mul_polynomials_in_evaluation_domain,          *)
+(* sample_element_outside_domain.                                                           *)
+(* ====================================================================================== *)
+From V Require Import C07.Domain2 C07.Reindex C07.Filter.
+
+(* reindex_by_subdomain: G = self with |G| = n m, S = other with |S| = n (m = |G|/|S| -- the size quotient,
+   whatever log_size_of_group says).  (1) i < |S| goes to i m (the i-th element of S inside G);
+   (2)-(4) the indices >= |S| go, in increasing order, exactly onto the indices of G that are not
+   multiples of m; (5)-(6) the map is a bijection of [0, |G|).  No panic on [0, |G|). *)
+Theorem C07_reindex_by_subdomain_spec : forall T (d o : domain T) n m,
+  d_size o = n -> d_size d = n * m -> 1 <= n -> 1 <= m ->
+  (forall i, 0 <= i < n -> reindex_by_subdomain d o i = Some (i * m)) /\
+  (forall i, n <= i < n * m ->
+     exists j, reindex_by_subdomain d o i = Some j /\ 0 <= j < n * m /\ j mod m <> 0) /\
+  (forall i1 i2 j1 j2, n <= i1 -> i1 < i2 -> i2 < n * m ->
+     reindex_by_subdomain d o i1 = Some j1 -> reindex_by_subdomain d o i2 = Some j2 -> j1 < j2) /\
+  (forall j, 0 <= j < n * m -> j mod m <> 0 ->
+     exists i, n <= i < n * m /\ reindex_by_subdomain d o i = Some j) /\
+  (forall i1 i2 j, 0 <= i1 < n * m -> 0 <= i2 < n * m ->
+     reindex_by_subdomain d o i1 = Some j -> reindex_by_subdomain d o i2 = Some j -> i1 = i2) /\
+  (forall j, 0 <= j < n * m -> exists i, 0 <= i < n * m /\ reindex_by_subdomain d o i = Some j).
+Proof. exact reindex_by_subdomain_spec. Qed.
+(* closed form of the upper part: index |S| + q (m-1) + r (r < m-1) goes to q m + r + 1 *)
+Theorem C07_reindex_high_closed_form : forall T (d o : domain T) n m,
+  d_size o = n -> d_size d = n * m -> 1 <= n -> 1 <= m -> forall i, n <= i < n * m ->
+  reindex_by_subdomain d o i = Some ((i - n) / (m - 1) * m + (i - n) mod (m - 1) + 1) /\
+  0 <= (i - n) / (m - 1) < n /\ 0 <= (i - n) mod (m - 1) < m - 1.
+Proof. exact (@reindex_high). Qed.
+(* group meaning: with gen_S = gen_G^(|G|/|S|) and equal offsets, G.element(reindex i) = S.element(i), i < |S| *)
+Theorem C07_reindex_element : forall T (F : Fops T), is_field F -> eqb_correct F ->
+  forall (d s : domain T) (i m : nat),
+  d_gen s = pown F (d_gen d) m -> d_offset s = d_offset d ->
+  element F d (Z.of_nat i * Z.of_nat m) = element F s (Z.of_nat i).
+Proof. exact (@reindex_element_eq). Qed.
+(* F_37 (36 = 2^2 3^2, L = 2, two-adic root 31): MixedRadix new(12) and new(4) both have log_size_of_group = 2
+   (the two-adicity), the period is 12/4 = 3, not 2^(2-2) *)
+Example C07_example_reindex_mixed :
+  let F := ZpOps 37 in
+  let c := mkCfg 2 31 (Some 3) (Some 2) (Some 2) in
+  match mixed_new F c 12, mixed_new F c 4 with
+  | RSome d, RSome s =>
+      d_size d = 12 /\ d_size s = 4 /\ d_log d = 2 /\ d_log s = 2 /\ d_gen s = pown F (d_gen d) 3 /\
+      map (reindex_by_subdomain d s) (map Z.of_nat (seq 0 12))
+        = map Some [0; 3; 6; 9; 1; 2; 4; 5; 7; 8; 10; 11] /\
+      map (fun i => match reindex_by_subdomain d s i with Some j => element F d j | None => 0 end) [0; 1; 2; 3] = map (element F s) [0; 1; 2; 3]
+  | _, _ => False
+  end.
+Proof. vm_compute. repeat split; reflexivity. Qed.
+
+(* DenseOrSparsePolynomial::divide_with_q_and_r (divisor trimmed, non-zero): num = q dv + r, deg r < deg dv *)
+Theorem C07_divide_with_q_and_r_spec : forall T (F : Fops T), is_field F -> eqb_correct F ->
+  forall num dv q r, dv <> [] -> last dv (f0 F) <> f0 F ->
+  divide_with_q_and_r F num dv = Some (q, r) ->
+  (forall x, fadd F (fmul F (eval F q x) (eval F dv x)) (eval F r x) = eval F num x) /\
+  (length r < length dv)%nat.
+Proof. exact (@divide_with_q_and_r_spec). Qed.
+(* filter_polynomial(G, S) = q: at every tau,  q(tau) |G| Z_S(tau) = |S| offset_S^|S| Z_G(tau) *)
+Theorem C07_filter_polynomial_spec : forall T (F : Fops T), is_field F -> eqb_correct F ->
+  forall (d s : domain T) (N n : nat) q tau,
+  d_size d = Z.of_nat N -> d_size s = Z.of_nat n -> (1 <= N)%nat -> (1 <= n)%nat ->
+  d_size_fe d <> f0 F ->
+  filter_polynomial F d s = Some q ->
+  fmul F (eval F q tau) (fmul F (d_size_fe d) (evaluate_vanishing_polynomial F s tau))
+  = fmul F (fmul F (d_size_fe s) (pown F (d_offset s) n)) (evaluate_vanishing_polynomial F d tau).
+Proof. exact (@filter_polynomial_spec). Qed.
+(* evaluate_filter_polynomial = the value of that polynomial wherever Z_S(tau) <> 0 (on S it is 1 by definition).
+   PARTIAL: that q(tau) = offset_G^|G| (= 1 for a subgroup G) at the points of S is not proved (it needs the
+   closed form of the quotient); correspondence classes filter/*/tau_in_S, tau=S0 *)
+Theorem C07_evaluate_filter_is_eval_partial : forall T (F : Fops T), is_field F -> eqb_correct F ->
+  forall (d s : domain T) (N n : nat) q tau,
+  d_size d = Z.of_nat N -> d_size s = Z.of_nat n -> (1 <= N)%nat -> (1 <= n)%nat ->
+  d_size_fe d <> f0 F -> d_offset_pow_size s = pown F (d_offset s) n ->
+  filter_polynomial F d s = Some q ->
+  evaluate_vanishing_polynomial F s tau <> f0 F ->
+  evaluate_filter_polynomial F d s tau = eval F q tau.
+Proof. exact (@evaluate_filter_is_eval). Qed.
+(* DEFECT-1: the Rust code omits the factor offset_S^|S|; it agrees with the meaning when that factor is 1 *)
+Theorem C07_evaluate_filter_as_coded_agrees : forall T (F : Fops T), is_field F ->
+  forall (d s : domain T) tau, d_offset_pow_size s = f1 F ->
+  evaluate_filter_polynomial_as_coded F d s tau = evaluate_filter_polynomial F d s tau.
+Proof. exact (@evaluate_filter_as_coded_agrees). Qed.
+(* F_97: G = <64> of size 8, S = 64 * <96> of size 2 (64^2 = 22 <> 1), tau = 5 outside G: the filter polynomial,
+   its value 90 = evaluate_filter_polynomial, and the 57 = 90 / 22 the Rust code returns (DEFECT-1 witness) *)
+Example C07_example_filter :
+  let F := ZpOps 97 in
+  let c := mkCfg (T:=Z) 5 28 None None None in
+  match radix2_new F c 8, radix2_new F c 2 with
+  | RSome d, RSome s0 =>
+      match get_coset F s0 64 with
+      | Some s =>
+          filter_polynomial F d s = Some [73; 0; 43; 0; 24; 0; 54] /\
+          eval F [73; 0; 43; 0; 24; 0; 54] 5 = 90 /\ evaluate_filter_polynomial F d s 5 = 90 /\
+          evaluate_filter_polynomial_as_coded F d s 5 = 57 /\ fmul F 57 22 = 90 /\
+          evaluate_vanishing_polynomial F s 5 <> 0 /\ d_size_fe d <> 0 /\
+          map (eval F [73; 0; 43; 0; 24; 0; 54]) (elements F d) = [0; 1; 0; 0; 0; 1; 0; 0]
+      | None => False
+      end
+  | _, _ => False
+  end.
+Proof. vm_compute. repeat split; try reflexivity; discriminate. Qed.
+
+(* mul_polynomials_in_evaluation_domain: pointwise product of evaluations = evaluations of the product *)
+Theorem C07_eval_pmul : forall T (F : Fops T), is_field F ->
+  forall a b x, eval F (pmul F a b) x = fmul F (eval F a x) (eval F b x).
+Proof. exact (@eval_pmul). Qed.
+Theorem C07_mul_in_evaluation_domain_spec : forall T (F : Fops T), is_field F ->
+  forall n h w a b,
+  mul_polynomials_in_evaluation_domain F (dft_coset F n h w a) (dft_coset F n h w b)
+  = Some (dft_coset F n h w (pmul F a b)).
+Proof. exact (@mul_in_evaluation_domain_spec). Qed.
+Example C07_example_mul :
+  let F := ZpOps 17 in
+  pmul F [1; 2] [3; 4] = [3; 10; 8] /\
+  mul_polynomials_in_evaluation_domain F (dft_coset F 4 3 4 [1; 2]) (dft_coset F 4 3 4 [3; 4])
+  = Some (dft_coset F 4 3 4 [3; 10; 8]).
+Proof. vm_compute. split; reflexivity. Qed.
+
+(* sample_element_outside_domain: the result is one of the rng's draws, has a non-zero vanishing value,
+   hence is not an element of the domain *)
+Theorem C07_sample_outside_spec : forall T (F : Fops T), eqb_correct F ->
+  forall (d : domain T) cands t,
+  sample_element_outside_domain F d cands = Some t ->
+  In t cands /\ evaluate_vanishing_polynomial F d t <> f0 F.
+Proof. exact (@sample_outside_spec). Qed.
+Theorem C07_sample_outside_not_in_domain : forall T (F : Fops T), is_field F -> eqb_correct F ->
+  forall (d : domain T) (n : nat) cands t,
+  d_size d = Z.of_nat n -> (1 <= n)%nat -> pown F (d_gen d) n = f1 F ->
+  (forall i, (0 < i < n)%nat -> pown F (d_gen d) i <> f1 F) -> d_offset d <> f0 F ->
+  d_offset_pow_size d = pown F (d_offset d) n -> nfe F n <> f0 F ->
+  sample_element_outside_domain F d cands = Some t ->
+  forall j, (j < n)%nat -> t <> fmul F (d_offset d) (pown F (d_gen d) j).
+Proof. exact (@sample_outside_not_in_domain). Qed.
+Example C07_example_sample_outside :
+  let F := ZpOps 17 in
+  let d := mkDomain false 8 3 8 15 2 9 3 6 16 in
+  sample_element_outside_domain F d [3; 11; 4; 5] = Some 4 /\ in_domain F d 4 = false /\ in_domain F d 11 = true.
+Proof. vm_compute. repeat split; reflexivity. Qed.
